@@ -129,6 +129,16 @@ struct quill::Codec<Thrower> : quill::DeferredFormatCodec<Thrower>
 {
 };
 
+// what each statement's text after "<id>:" must be (filled when the statement is issued): the sink checks that the
+// payload arrived intact (a corrupted payload is reported as note kind 7, which the model never produces)
+static std::mutex g_expect_m;
+static std::map<u64, std::string> g_expect;
+static void expect_payload(u64 id, std::string text)
+{
+  std::lock_guard<std::mutex> lk(g_expect_m);
+  g_expect[id] = std::move(text);
+}
+
 // ------------------------------------------------------------------ recording sink
 class RecSink : public quill::Sink
 {
@@ -146,6 +156,12 @@ public:
     while (i < msg.size() && msg[i] >= '0' && msg[i] <= '9') { id = id * 10 + static_cast<u64>(msg[i] - '0'); ++i; }
     if (i == 0 || i >= msg.size() || msg[i] != ':') id = 0; // error text instead of the payload
     obs({1, _idx, id, static_cast<u64>(level), static_cast<u64>(named ? named->size() : 0)});
+    if (id != 0)
+    {
+      std::lock_guard<std::mutex> lk(g_expect_m);
+      auto it = g_expect.find(id);
+      if (it != g_expect.end() && msg.substr(i + 1) != it->second) obs({3, 7, id});
+    }
   }
   void flush_sink() override { obs({2, _idx}); }
 
@@ -225,12 +241,20 @@ static LoggerHandle make_logger(std::string const& name, std::vector<std::shared
   {
     auto lv = static_cast<quill::LogLevel>(level);
     if (!lg->should_log_statement(lv)) return -1;
+    // odd ids carry the padding as a C string (its length goes through the per-thread size cache of the codec), even ids
+    // as a std::string; a C string of pad + 3 characters has the same encoded size (strlen + 1 = 4 + pad)
+    bool const cstr = (id & 1) != 0;
+    std::string const text(cstr ? pad + 3 : pad, 'x');
+    expect_payload(static_cast<u64>(id), text);
+    char const* const ctext = text.c_str();
     if (mode >= 20)
-      return lg->template log_statement<false, true>(lv, &kNamedMeta, Thrower{id, mode % 10}, std::string(pad, 'x')) ? 1 : 0;
+      return (cstr ? lg->template log_statement<false, true>(lv, &kNamedMeta, Thrower{id, mode % 10}, ctext)
+                   : lg->template log_statement<false, true>(lv, &kNamedMeta, Thrower{id, mode % 10}, text)) ? 1 : 0;
     if (mode >= 10 && level <= 9)
-      return lg->template log_statement<false, false>(quill::LogLevel::None, &kStaticMeta[level], Thrower{id, mode % 10},
-                                                      std::string(pad, 'x')) ? 1 : 0;
-    return lg->template log_statement<false, true>(lv, &kLogMeta, Thrower{id, mode % 10}, std::string(pad, 'x')) ? 1 : 0;
+      return (cstr ? lg->template log_statement<false, false>(quill::LogLevel::None, &kStaticMeta[level], Thrower{id, mode % 10}, ctext)
+                   : lg->template log_statement<false, false>(quill::LogLevel::None, &kStaticMeta[level], Thrower{id, mode % 10}, text)) ? 1 : 0;
+    return (cstr ? lg->template log_statement<false, true>(lv, &kLogMeta, Thrower{id, mode % 10}, ctext)
+                 : lg->template log_statement<false, true>(lv, &kLogMeta, Thrower{id, mode % 10}, text)) ? 1 : 0;
   };
   h.flush = [lg]() { lg->flush_log(); };
   h.init_bt = [lg](uint32_t cap, int lvl) { lg->init_backtrace(cap, static_cast<quill::LogLevel>(lvl)); };
@@ -526,6 +550,7 @@ static void run_case(std::vector<u64> const& l)
   }
   u64 ns = l[i++];
   g_sinks.clear(); g_loggers.clear(); g_dead.clear();
+  { std::lock_guard<std::mutex> lk(g_expect_m); g_expect.clear(); }
   for (u64 k = 0; k < ns; ++k)
   {
     u64 level = l[i++]; u64 nt = l[i++];
